@@ -399,6 +399,25 @@ func (x *instr) walk(f *ast.File) {
 				return true
 			}
 			recv := x.text(sel.X)
+			recvType := tv.Type
+			// a method promoted from an embedded field (struct{ sync.Mutex; ... }): the call is
+			// on that field
+			if selInfo := info.Selections[sel]; selInfo != nil && selInfo.Kind() == types.MethodVal && len(selInfo.Index()) > 1 {
+				t := recvType
+				for _, idx := range selInfo.Index()[:len(selInfo.Index())-1] {
+					if p, ok := t.Underlying().(*types.Pointer); ok {
+						t = p.Elem()
+					}
+					st, ok := t.Underlying().(*types.Struct)
+					if !ok || idx >= st.NumFields() {
+						break
+					}
+					recv += "." + st.Field(idx).Name()
+					t = st.Field(idx).Type()
+				}
+				recvType = t
+			}
+			tv.Type = recvType
 			addr := "&" + recv
 			if _, isPtr := tv.Type.(*types.Pointer); isPtr {
 				addr = recv
